@@ -250,8 +250,14 @@ pub fn fb_wrapped<S: Src>(s: &mut S) {
     let b = draw_bye(s);
     let mk = || PayloadFeedback::builder(&sli).sender_ssrc(fbc.sender).media_ssrc(fbc.media).padding(fbc.padding);
     let m = [alone(&mk(), fbc.padding), alone(&b.builder(), b.padding)];
-    let c = Compound::builder().add_packet(mk()).add_packet(PacketBuilder::from(b.builder()));
+    let wrap_first = s.bool();
+    let c = if wrap_first {
+        Compound::builder().add_packet(PacketBuilder::from(mk())).add_packet(PacketBuilder::from(b.builder()))
+    } else {
+        Compound::builder().add_packet(mk()).add_packet(PacketBuilder::from(b.builder()))
+    };
     check::<S, 2, 0>(s, &c, &m, false);
+    vcover!(wrap_first && fbc.padding > 0, "padded wrapped feedback in a non-last position");
     forget(c);
 }
 
